@@ -235,6 +235,11 @@ def check_seq(pid, tier, seed):
     jobs += we.make_jobs(wl2[: (40, 400)[ti]], "seq", [geoms[1]], ["bin"], seed, prefix="rb", probeEach=True)
     jobs += we.make_jobs(wl[: (600, 6000)[ti]] + wl2[: (60, 600)[ti]], "seq", [geoms[0], geoms[-1]], ["ident"], seed,
                          prefix="o", probeEach=True, reopenEach=True)
+    # the same sequences on the production fs.FS + BoltMetaDB in a scratch directory (C05: "real segment files + real
+    # BoltDB as well as in-memory VFS"), with a reopen after every step
+    eng.rng.shuffle(wl2)
+    jobs += we.make_jobs(wl[: (250, 2500)[ti]] + wl2[: (40, 400)[ti]], "seq", [geoms[0], geoms[1]], ["ident"], seed,
+                         prefix="x", probeEach=True, real=True, reopenEach=True)
     jobs += we.corpus_jobs(pid)
     eng.stats["distinct_seq"] = len({json.dumps([j["steps"], j["segSize"], j.get("reopenEach")], sort_keys=True)
                                      for j in jobs if any(s["op"] in ("store", "delete") for s in j["steps"])})
